@@ -334,8 +334,14 @@ class PwlRecurrenceCase(Case):
     try:
       w0 = tfc.sym([cfg['nk'], cfg['units']], 'w')
       lib.project_all_constraints(w0, cfg['mono'], lo, hi, omc, oxc, cfg.get('conv', 0), ln, 5)
+      # groups the specification requires: monotonicity, bounds, and one convexity group per parity of adjacent
+      # height pairs (pairs (i, i+1): even i always, odd i as soon as there are three heights)
+      nh = cfg['nk'] - 1
+      conv_groups = 0 if not cfg.get('conv', 0) else (1 + (nh >= 3)) if nh >= 2 else 0
+      need = int(cfg['mono'] != 0) + int(cfg['bounds'] != 'none') + conv_groups
       if 'body' not in captured:
-        return [('single-step-configuration (no loop)', E.TRUE)]
+        return [('single-step-configuration (no loop) only when at most one group is needed [%d needed]' % need,
+                 B.const(need <= 1))]
       cnt, b0, h0, lbc, lhc = captured['vars']
       bias = tfc.sym(b0.a.shape, 'curb')
       heights = tfc.sym(h0.a.shape, 'curh')
@@ -355,6 +361,9 @@ class PwlRecurrenceCase(Case):
     def diff(a, b):
       return tfc.subtract(a, b)
     cl = [('every-group-projected-exactly-once', B.const(len(calls) == len(lh_in)))]
+    got_conv = sorted({k for k, _, _ in calls if k.startswith('_project_convexity')})
+    cl.append(('convexity-groups-cover-every-adjacent-pair [%s]' % ','.join(got_conv), B.const(len(got_conv) == conv_groups)))
+    cl.append(('number-of-groups-matches-the-specification', B.const(len(calls) == need)))
     curb, curh = bias, heights
     used = set()
     for ci, (name, (b_in, h_in), (ob, oh)) in enumerate(calls):
@@ -577,7 +586,8 @@ def configs(tier, rng):
   for base in C04.base_space():
     if base['mono'] != 0 and base['conv'] != 0 and base['bounds'] != 'none':
       continue   # known finding F-C04a lives there; feasibility there is decided in C04
-    for nk in ((2, 3) if tier == 'quick' else (2, 3, 4)):
+    # the convexity pair groups exist or not depending on the parity / number of heights: 2..5 keypoints there
+    for nk in (((2, 3, 4, 5) if base['conv'] else (2, 3)) if tier == 'quick' else (2, 3, 4, 5)):
       jobs.append(('pwl_fixpoint', dict(base, nk=nk, units=1 + nk % 2)))
       jobs.append(('pwl_recurrence', dict(base, nk=nk, units=1 + nk % 2)))
   out, seen = [], set()
